@@ -29,8 +29,8 @@ NPROC = os.cpu_count() or 16
 
 TIERS = {
     # explore: list of (first worker id, workers, runs per worker, concurrency bias %, restart-before-run %)
-    "quick": dict(explore=[(0, 10, 3000, 30, 75), (50, 2, 2000, 30, 10), (100, 4, 1400, 90, 75)], seconds_cap=90, sweeps=1, hash_orders=8, determinism_runs=150, miri_seeds=0, max_minimise=3, fresh_sample=48),
-    "thorough": dict(explore=[(0, 10, 3000, 30, 75), (50, 2, 2000, 30, 10), (100, 4, 1400, 90, 75), (1000, 10, 40000, 30, 75), (1050, 2, 30000, 30, 10), (2000, 4, 12000, 90, 75)], seconds_cap=540, sweeps=8, hash_orders=64, determinism_runs=400, miri_seeds=16, max_minimise=6, fresh_sample=256),
+    "quick": dict(explore=[(0, 10, 3000, 30, 75), (50, 1, 2000, 30, 10), (60, 1, 2000, 30, 1), (100, 4, 1400, 90, 75)], seconds_cap=90, sweeps=1, hash_orders=8, determinism_runs=150, miri_seeds=0, max_minimise=3, fresh_sample=48),
+    "thorough": dict(explore=[(0, 10, 3000, 30, 75), (50, 1, 2000, 30, 10), (60, 1, 2000, 30, 1), (100, 4, 1400, 90, 75), (1000, 10, 40000, 30, 75), (1050, 1, 30000, 30, 10), (1060, 1, 30000, 30, 1), (2000, 4, 12000, 90, 75)], seconds_cap=540, sweeps=8, hash_orders=64, determinism_runs=400, miri_seeds=16, max_minimise=6, fresh_sample=256),
 }
 
 
@@ -434,7 +434,9 @@ MIRI_SCENARIOS = {
     "a": "three callers ask a month, its leap twin and a digit twin twice each and compare with LunarMonth::new",
     "b": "as a, with one caller issuing two caught refusals (month 13, wrong leap month) first",
     "c": "two callers race on the first use of every lazy static",
+    "d": "one caller's eight-char computation panics inside the provider's critical section while another caller asks valid eight characters",
 }
+MIRI_PLAN = [("a", 0.05), ("a", 0.2), ("b", 0.05), ("b", 0.2), ("c", 0.05), ("c", 0.2), ("d", 0.2)]
 
 
 def miri_run(scenario, flags, timeout=3600):
@@ -458,8 +460,8 @@ def run_miri(nseeds):
     viols = []
     errs = []
     t0 = time.time()
-    for sc in MIRI_SCENARIOS:
-        for rate in (0.05, 0.2):
+    for sc, rate in MIRI_PLAN:
+        if True:
             flags = "-Zmiri-many-seeds=0..%d -Zmiri-preemption-rate=%s" % (nseeds, rate)
             try:
                 rc, ok, sig, failing, out = miri_run(sc, flags)
